@@ -9,6 +9,7 @@ that has imported rig and called nothing, i.e. the "restart with only durable
 state" of this library.
 """
 import collections
+import io
 import os
 import pickle
 import random as pyrandom
@@ -837,7 +838,10 @@ class Caller(object):
         return canon(sorted(
             (k.decode(), v.size, v.base, sorted(
                 (fk.decode(), canon(tuple(fv)))
-                for fk, fv in v.fields.items()))
+                for fk, fv in v.fields.items()
+                # (the two fields boot() stamps with the time of the call:
+                # the clock is not an earlier *call*)
+                if fk not in (b"unix_time", b"boot_sig")))
             for k, v in structs.items()))
 
     def call_controller(self, t):
@@ -882,6 +886,25 @@ class Caller(object):
                         raise KeyError("body failed")
             except KeyError:
                 pass
+            # ... and has loaded applications, tables, tags (whatever counters
+            # and caches that involves belong to *that* controller)
+            files = {"/sim/hist.aplx": bytes((i * 7 + 1) & 0xff
+                                             for i in range(4 * 40))}
+            seams.set("rig.machine_control.machine_controller", "open",
+                      lambda path, mode="r", *a, **k:
+                      io.BytesIO(files[path]) if path in files
+                      else open(path, mode, *a, **k))
+            for _ in range(t.draw(4)):
+                k = t.draw(3)
+                if k == 0:
+                    first.load_application(
+                        "/sim/hist.aplx", {(1, 1): {1 + t.draw(4)}},
+                        app_id=40 + t.draw(3))
+                elif k == 1:
+                    first.iptag_set(1 + t.draw(3), "10.1.2.3", 5000, 0, 0)
+                else:
+                    first.write(0x60000100 + 4 * t.draw(8), b"\x01\x02\x03",
+                                0, t.draw(2))
             b1 = bmpmod.BMPController("spinn", n_tries=2, timeout=0.1)
             b1.update_current_context(board=3 + t.draw(3))
             # the objects created afterwards must look brand new
@@ -897,6 +920,14 @@ class Caller(object):
             except TypeError as e:
                 out.append(("alloc", "TypeError"))
             out.append(("structs", self.structs_canon(second.structs)))
+            # every datagram of an application load by the new controller
+            # (fill identifiers, sequence numbers, arguments, data)
+            del sent[:]
+            second.load_application("/sim/hist.aplx", {(0, 1): {2, 3}},
+                                    app_id=31)
+            out.append(("load", [(d.dest_x, d.dest_y, d.dest_cpu, d.cmd,
+                                  d.seq, d.arg(0), d.arg(1), d.arg(2),
+                                  bytes(d.body[12:]).hex()) for d in sent]))
         finally:
             seams.restore()
         return "controller", canon(out)
@@ -991,14 +1022,27 @@ def run(world, tier, prop):
         return {"probe": probe_kind}
     if got != ref:
         w.violate("HIST", "%s(seed=%d) after %d earlier calls returned %s; "
-                  "called first in a fresh interpreter it returns %s"
-                  % (label, probe_seed, n_hist, short(got), short(ref)),
+                  "called first in a fresh interpreter it returns %s "
+                  "[first difference %s]"
+                  % (label, probe_seed, n_hist, short(got), short(ref),
+                     first_difference(got, ref)),
                   kind="history-dependent", call=label.split("[")[0])
     if isinstance(got, tuple) and len(got) > 1 and \
             isinstance(got[1], tuple) and got[1][:1] == ("raised",):
         w.probe("probe_raised_same_error")
     w.ops_completed += 1
     return {"probe": probe_kind, "history": n_hist}
+
+
+def first_difference(a, b, path=""):
+    """Where two canonical structures first differ (for the message)."""
+    if type(a) is type(b) and isinstance(a, (tuple, list)):
+        if len(a) != len(b):
+            return "%s: lengths %d / %d" % (path or ".", len(a), len(b))
+        for i, (x, y) in enumerate(zip(a, b)):
+            if x != y:
+                return first_difference(x, y, "%s[%d]" % (path, i))
+    return "%s: %s / %s" % (path or ".", short(a), short(b))
 
 
 def short(x):
